@@ -35,7 +35,7 @@ def plan(tier, seed, kf_ids):
     # the minimum): the special cases of the remainder code (-1, minimum, divisors that do not fit the type's integer part)
     for s in ("I", "U"):
         for w, wide in ((32, "i128"), (64, "i128")):
-            for f in ([w // 2] if q else [0, w // 2, w]):
+            for f in (([w // 2] if w == 32 else [0, w // 2]) if q else [0, w // 2, w]):
                 t, i, al, tg = c.ty(s, w, f), c.inner(s, w), c.alias(s, w, f), c.tag(s, w, f)
                 mn = "<%s>::MIN" % i if s == "I" else "(1 << %d)" % (w - 1)
                 fixed_divs = [("ulp", "1"), ("one", "1 << %d" % f if f < w - (1 if s == "I" else 0) else "1 << %d" % (w - 2)), ("min", mn), ("big", "1 << %d" % (w - 2))]
@@ -46,9 +46,13 @@ def plan(tier, seed, kf_ids):
                     int_divs += [("mone", "-1"), ("mthree", "-3")]
                 for body, extra, divs in (("rem", "", fixed_divs), ("diveuc", ", %d" % f, fixed_divs), ("remint", ", %d" % f, int_divs),
                                           ("diveucint", ", %d" % f, int_divs)):
-                    if w == 64 and body != "rem":
-                        continue   # a << f needs more than the 128 bits of the oracle's word
+                    if w == 64 and body == "diveuc":
+                        continue   # (a << f) / b needs more than the 128 bits of the oracle's word
+                    if w == 64 and body != "rem" and f > 32:
+                        continue   # n << f must fit the oracle's word
                     for dn, dexpr in divs:
+                        if q and w == 64 and body == "diveucint" and f == 0 and dn in ("three", "mthree"):
+                            continue   # 200-300 s each: thorough only
                         name = "c07_%s_%s_by_%s" % (body, tg, dn)
                         code = "c07_%s!(%s, %s, %s, %s%s; %s);" % (body, name, t, i, wide, extra, dexpr)
                         jobs.append(Job(name, code, "for every dividend of %s and the constant divisor %s: %s forms against %s arithmetic" % (al, dexpr, body, wide),
